@@ -40,6 +40,7 @@ RunVals(r) == IF r.k = "wrun" THEN [i \in 1..r.n |-> V("h", I32(r.start + (i - 1
 Arrays == { [t |-> "a", et |-> "i", v |-> <<>>], [t |-> "a", et |-> "i", v |-> <<V("i", I32(1)), V("i", I32(0 - 2))>>],
             [t |-> "a", et |-> "s", v |-> <<V("s", <<97>>), V("s", <<>>)>>], [t |-> "a", et |-> "T", v |-> <<V("T", <<>>), V("F", <<>>), V("T", <<>>)>>],
             [t |-> "a", et |-> "f", v |-> <<V("f", F(3))>>], [t |-> "a", et |-> "i", v |-> [i \in 1..6 |-> V("i", I32(5))]],
+            [t |-> "a", et |-> "i", v |-> [i \in 1..10 |-> V("i", I32(IF i <= 5 THEN i ELSE i - 1))]],      \* two runs in one array: 1..5 and 5..9
             [t |-> "a", et |-> "h", v |-> <<V("h", I64(0 - 19)), V("h", I64(3))>>], [t |-> "a", et |-> "c", v |-> <<V("c", I32(97))>>] }
 ItemVals(it) == IF it.k \in {"run", "wrun"} THEN RunVals(it) ELSE <<it.x>>
 RECURSIVE Flat(_)
